@@ -16,7 +16,7 @@ from vlib.coqfmt import cfloat, cZ, cbool, clist, cpair, copt, cnat
 KINDS = [
     "none", "raw_all", "raw_some",
     "json_perm_nobytes", "json_perm_rows", "json_perm_mnvr", "json_perm_mn_string",
-    "json_obj_props", "json_default",
+    "json_obj_props", "json_default", "json_default_extra",
     "json_addl_false", "json_addl_false_mnvr",
     "json_required_nobytes", "json_required_rows",
     "json_mn_string_type", "json_mn_integer", "json_vr_min",
@@ -75,6 +75,15 @@ def decorate(table, kind, rng):
         table.metadata_schema = (schemas.default_node_schema if type(table).__name__ == "NodeTable"
                                  else schemas.default_mutation_schema)
         rows(lambda i: _j({"mn": float(i), "vr": 0.5 * i}))
+    elif kind == "json_default_extra":
+        # a table dated before by tsdate (from schema-less tables) and annotated since: the
+        # rows hold further keys next to mn / vr (e.g. preprocess_ts' unsplit_node_id)
+        from tsdate import schemas
+        table.metadata_schema = (schemas.default_node_schema if type(table).__name__ == "NodeTable"
+                                 else schemas.default_mutation_schema)
+        rows(lambda i: _j(rng.choice([{"mn": float(i), "vr": 0.5 * i, "unsplit_node_id": i},
+                                      {"note": "kept?", "mn": 1.0, "vr": 2.0},
+                                      {"unsplit_node_id": i, "tag": [i, "x"]}])))
     elif kind == "json_addl_false":
         table.metadata_schema = MS({"codec": "json", "type": "object", "properties": {"a": {"type": "number"}},
                                     "additionalProperties": False})
@@ -225,6 +234,29 @@ def pooled_ts(rng, size=10, **kw):
     if not pool:
         raise RuntimeError("no suitable tree sequence")
     return rng.choice(pool)
+
+
+def maybe_permuted(rng, ts, p=0.5):
+    """with probability p renumber all nodes at random: node ids are then neither samples-first
+    nor in time order"""
+    if ts.num_migrations > 0:      # tskit cannot renumber nodes under migrations
+        return ts
+    return gen.permute_nodes(rng, ts) if rng.random() < p else ts
+
+
+def annotate_rows(table, rng):
+    """add a key to every row of a JSON-metadata table (as a user, or preprocess_ts'
+    unsplit_node_id, would between two datings)"""
+    schema = table.metadata_schema
+    rows = []
+    for i, b in enumerate(table_rows(table)):
+        d = schema.decode_row(b)
+        d = dict(d)
+        d["unsplit_node_id"] = i
+        if rng.random() < 0.5:
+            d["note"] = {"by": "user", "n": i}
+        rows.append(schema.validate_and_encode_row(d))
+    table.packset_metadata(rows)
 
 
 def random_values(rng, n, style=None):
@@ -782,9 +814,11 @@ class ModCase:
         mt.metadata_schema = mschema if mschema is not None else tskit.MetadataSchema(None)
         pred.mutations.replace_with(mt)
         pred.mutations.metadata_schema = mt.metadata_schema
+        migs = pred.migrations.copy()
         pred.build_index()
         pred.compute_mutation_parents()
-        pred.compute_mutation_times()
+        pred.compute_mutation_times()          # tskit re-sorts migrations here too
+        pred.migrations.replace_with(migs)     # the model returns them as given
         self.pred_order = order
         self.pred_provs = provs
         self.pred_log = log
